@@ -486,9 +486,13 @@ def r132(ctx, rep, f, ev, cg, reach, O):
     # frame open/close
     pt = CDP + "preprocess_tdh"
     if pt in f.fns:
-        out = [o for o in ev.collect_ifs(pt, [Sym("self"), Sym("sl")]) if "cond" in o]
+        ev.bitfields = True   # the TDH flag word as named bits: continuation is bit 14 however it is masked / shifted
+        try:
+            out = [o for o in ev.collect_ifs(pt, [Sym("self"), Sym("sl")]) if "cond" in o]
+        finally:
+            ev.bitfields = False
         op = [o for o in out if "readout_frame_validator" in ckey(o["cond"])]
-        want = ("and[Eq(sym(Shr(sym(BitAnd(sym(unwrap(sym(self.status_words.tdhs.current_tdh)).trigger_type_internal_trigger_no_data_continuation_reserved2),0x4000)),0xe)),0x0);"
+        want = ("and[none(unwrap(sym(self.status_words.tdhs.current_tdh)).trigger_type_internal_trigger_no_data_continuation_reserved2[14]);"
                 "symc(isSome(sym(self.readout_frame_validator)));symc(sym(Not(sym(payload(sym(self.readout_frame_validator),Some).is_readout_frame))))]")
         ok = len(op) == 1 and ckey(op[0]["cond"]) == want
         tb = ev.tb(pt)
